@@ -165,7 +165,7 @@ Proof.
     + intros m Hin. eapply msg_seq_ok_mono; eauto. apply Hinv. auto.
   - intros m Hin. apply in_map_iff in Hin. destruct Hin as [adv [E Hadv]]. subst.
     apply In_sort_by in Hadv. apply in_flat_map in Hadv. destruct Hadv as [[[o sq] p] [Hk Hadv]].
-    apply In_dedup_keys in Hk. apply In_replay_group in Hadv. destruct Hadv as [_ [_ Hadv]]. subst.
+    unfold replay_keys in Hk. apply filter_In in Hk. destruct Hk as [Hk _]. apply In_dedup_keys in Hk. apply In_replay_group in Hadv. destruct Hadv as [_ [_ Hadv]]. subst.
     unfold msg_seq_ok. simpl.
     apply in_map_iff in Hk. destruct Hk as [e [Ek He]]. unfold gkey_of in Ek.
     destruct (e_origin e =? self) eqn:Eo.
@@ -322,4 +322,61 @@ Proof.
     apply N.eqb_eq in K1, K2. specialize (H2 _ _ _ G Hx). rewrite K1, K2 in H2. unfold sq in H2. lia.
   - intros n ns e G He Ho. specialize (H1 _ _ _ G He). rewrite Ho in H1. unfold sq. lia.
   - intros m Hm Ho. specialize (H3 _ Hm). rewrite Ho in H3. unfold sq. lia.
+Qed.
+
+(* ------------------------------------------------------------------ *)
+(** ** a replay sends at most one group per foreign (origin, sequence) *)
+
+Lemma list_ltb_total : forall a b, a <> b -> list_ltb a b = true \/ list_ltb b a = true.
+Proof.
+  induction a as [|x a IH]; destruct b as [|y b]; intros H; simpl; auto; try congruence.
+  destruct (x <? y) eqn:E1; auto. destruct (y <? x) eqn:E2; auto.
+  assert (x = y) by lia. subst. apply IH. congruence.
+Qed.
+
+Lemma gbetter_total : forall self cands k c,
+  same_adv k c = true -> k <> c -> gbetter self cands k c = true \/ gbetter self cands c k = true.
+Proof.
+  intros self cands [[o1 s1] p1] [[o2 s2] p2] Hs Hne. unfold same_adv in Hs.
+  apply andb_true_iff in Hs as [H1 H2]. apply N.eqb_eq in H1, H2. subst.
+  assert (Hp : p1 <> p2) by congruence.
+  unfold gbetter.
+  set (a := gsize self cands (o2, s2, p1)). set (b := gsize self cands (o2, s2, p2)).
+  destruct (N.lt_trichotomy a b) as [L|[E|L]].
+  - right. apply orb_true_iff. left. apply N.ltb_lt. auto.
+  - destruct (N.lt_trichotomy (lenN p1) (lenN p2)) as [L|[E2|L]].
+    + left. rewrite E, N.eqb_refl. apply N.ltb_lt in L. rewrite L. simpl. apply orb_true_r.
+    + destruct (list_ltb_total p1 p2 Hp) as [T|T].
+      * left. rewrite E, N.eqb_refl, E2, N.eqb_refl, T. simpl. rewrite !orb_true_r. auto.
+      * right. rewrite E, N.eqb_refl, E2, N.eqb_refl, T. simpl. rewrite !orb_true_r. auto.
+    + right. rewrite E, N.eqb_refl. apply N.ltb_lt in L. rewrite L. simpl. apply orb_true_r.
+  - left. apply orb_true_iff. left. apply N.ltb_lt. auto.
+Qed.
+
+(** Of the groups a replay sends, no two foreign ones share origin and
+    sequence: the receiver's seen cache, keyed by (origin, sequence), drops
+    none of them because of another. *)
+Theorem replay_keys_one_per_advertisement : forall self cands k c,
+  In k (replay_keys self cands) -> In c (replay_keys self cands) ->
+  fst (fst k) <> self -> same_adv k c = true -> k = c.
+Proof.
+  intros self cands k c Hk Hc Hself Hs. unfold replay_keys in *.
+  apply filter_In in Hk. destruct Hk as [Hk1 Hk2]. apply filter_In in Hc. destruct Hc as [Hc1 Hc2].
+  destruct (list_eq_dec N.eq_dec (snd k) (snd c)) as [Ep|Ep].
+  - destruct k as [[o1 s1] p1], c as [[o2 s2] p2]. simpl in *. unfold same_adv in Hs.
+    apply andb_true_iff in Hs as [H1 H2]. apply N.eqb_eq in H1, H2. subst. auto.
+  - assert (Hne : k <> c) by (intros E; subst; auto).
+    assert (Hcs : fst (fst c) <> self).
+    { destruct k as [[o1 s1] p1], c as [[o2 s2] p2]. simpl in *. unfold same_adv in Hs.
+      apply andb_true_iff in Hs as [H1 _]. apply N.eqb_eq in H1. subst. auto. }
+    unfold keep_group in Hk2, Hc2.
+    apply N.eqb_neq in Hself, Hcs. rewrite Hself in Hk2. rewrite Hcs in Hc2. simpl in *.
+    rewrite forallb_forall in Hk2, Hc2.
+    specialize (Hk2 c Hc1). specialize (Hc2 k Hk1).
+    assert (Hs' : same_adv c k = true).
+    { destruct k as [[o1 s1] p1], c as [[o2 s2] p2]. unfold same_adv in *.
+      apply andb_true_iff in Hs as [H1 H2]. apply N.eqb_eq in H1, H2. subst. rewrite !N.eqb_refl. auto. }
+    rewrite Hs in Hk2. rewrite Hs' in Hc2. simpl in *.
+    apply negb_true_iff in Hk2, Hc2.
+    destruct (gbetter_total self cands k c Hs Hne); congruence.
 Qed.
